@@ -73,6 +73,28 @@ def programs(ctx):
         p.meta["generic"] = generic
         out.append(p)
         i += 1
+    # two compared fields of the SAME type, each with its own configuration, both orders: every compared component counts on its own
+    pairs = [(c1, c2, fty, shape) for c1 in CONFIGS for c2 in CONFIGS for fty in (("NE", False), ("f32", False), ("u8", True), ("T", None)) for shape in ("struct", "tuple", "enum")]
+    plain = CONFIGS[0]
+    always = [q for q in pairs if (q[0] is plain or q[1] is plain) and q[2][0] in ("NE", "f32")]       # a plain field next to any configured one
+    for (c1, c2, (fty, fty_eq), shape) in (always + rng.sample(pairs, 110) if ctx.quick else pairs):
+        generic = fty == "T"
+        fty_is_eq = False if generic else fty_eq        # generic: instantiated with NE
+        need = [{"field": fty_is_eq, "eq": True, "ne": False, None: True}[c[1]] for c in (c1, c2)]
+        must_be_eq = all(need)
+        g = "<T>" if generic else ""
+        if shape == "struct":
+            item = "pub struct X%s { %s pub a: %s, %s pub b: %s }" % (g, c1[0], fty, c2[0], fty)
+        elif shape == "tuple":
+            item = "pub struct X%s(%s pub %s, %s pub %s);" % (g, c1[0], fty, c2[0], fty)
+        else:
+            item = "pub enum X%s { A, B { %s a: %s, z: u8, %s b: %s } }" % (g, c1[0], fty, c2[0], fty)
+        text = "#[derive_ex::derive_ex(Eq, PartialEq)]\n%s\n\npub fn need_eq<E: Eq>() {}\npub fn probe() { need_eq::<X%s>(); }\npub fn replay(h: &str, b: &[u8]) -> (bool, String) { (true, String::new()) }\n" % (
+            item, "<NE>" if generic else "")
+        p = E.Prog("p_%04d" % i, text, [], {"describe": "%s  [components %s + %s, must %s]" % (item, c1[1], c2[1], "compile" if must_be_eq else "be refused")}, expect_compile=must_be_eq)
+        p.meta["generic"] = generic
+        out.append(p)
+        i += 1
     for (lst, item, must) in EXTRA:
         generic = "<T>" in item
         must_c = False if must is None else must
